@@ -20,12 +20,23 @@
 volatile int wrap_in_api = 0;
 
 enum { S_MALLOC, S_MMAP, S_MREMAP, S_MUNMAP, S_OPEN, S_FSTAT, S_FOPEN,
-       S_FWRITE, S_FCLOSE, S_N };
+       S_FWRITE, S_FCLOSE,
+       /* calls the library makes today (read, close) or that a changed library
+        * may start to make: wrapped so that a failpoint exists as soon as a call
+        * does */
+       S_READ, S_CLOSE, S_CALLOC, S_REALLOC, S_MPROTECT, S_WRITE, S_FREAD,
+       S_FFLUSH, S_PREAD, S_LSEEK, S_RENAME, S_FTRUNCATE, S_N };
 static const char *SYM[S_N] = {"malloc", "mmap",  "mremap", "munmap", "open",
-                               "fstat",  "fopen", "fwrite", "fclose"};
+                               "fstat",  "fopen", "fwrite", "fclose",
+                               "read", "close", "calloc", "realloc", "mprotect",
+                               "write", "fread", "fflush", "pread", "lseek",
+                               "rename", "ftruncate"};
 static long count[S_N];
-static long fail_at[S_N];  /* 0 = never, k = k-th call fails (1-based) */
+static long fail_at[S_N];   /* 0 = never, k = k-th call fails (1-based) */
+static long fail_from[S_N]; /* 0 = never, k = the k-th call and every later one fail */
 static long injected[S_N];
+static long read_max = 0;   /* > 0: every read() delivers at most this many bytes */
+static int read_errno = EIO;
 static int force_move = 0;
 static int guard_files = 0;
 static long moves, growths, guarded_maps;
@@ -39,12 +50,25 @@ int __real_fstat(int, struct stat *);
 FILE *__real_fopen(const char *, const char *);
 size_t __real_fwrite(const void *, size_t, size_t, FILE *);
 int __real_fclose(FILE *);
+ssize_t __real_read(int, void *, size_t);
+int __real_close(int);
+void *__real_calloc(size_t, size_t);
+void *__real_realloc(void *, size_t);
+int __real_mprotect(void *, size_t, int);
+ssize_t __real_write(int, const void *, size_t);
+size_t __real_fread(void *, size_t, size_t, FILE *);
+int __real_fflush(FILE *);
+ssize_t __real_pread(int, void *, size_t, off_t);
+off_t __real_lseek(int, off_t, int);
+int __real_rename(const char *, const char *);
+int __real_ftruncate(int, off_t);
 
 static int hit(int s) {
   if (!wrap_in_api)
     return 0;
   count[s]++;
-  if (fail_at[s] && count[s] == fail_at[s]) {
+  if ((fail_at[s] && count[s] == fail_at[s]) ||
+      (fail_from[s] && count[s] >= fail_from[s])) {
     injected[s]++;
     return 1;
   }
@@ -188,11 +212,116 @@ int __wrap_fclose(FILE *f) {
   return __real_fclose(f);
 }
 
+ssize_t __wrap_read(int fd, void *p, size_t n) {
+  if (hit(S_READ)) {
+    errno = read_errno;
+    return -1;
+  }
+  if (wrap_in_api && read_max > 0 && n > (size_t)read_max)
+    n = (size_t)read_max; /* a short read: legal at any time */
+  return __real_read(fd, p, n);
+}
+
+int __wrap_close(int fd) {
+  if (hit(S_CLOSE)) {
+    __real_close(fd); /* the descriptor is gone all the same, as on Linux */
+    errno = EIO;
+    return -1;
+  }
+  return __real_close(fd);
+}
+
+void *__wrap_calloc(size_t a, size_t b) {
+  if (hit(S_CALLOC)) {
+    errno = ENOMEM;
+    return NULL;
+  }
+  return __real_calloc(a, b);
+}
+
+void *__wrap_realloc(void *p, size_t n) {
+  if (hit(S_REALLOC)) {
+    errno = ENOMEM;
+    return NULL;
+  }
+  return __real_realloc(p, n);
+}
+
+int __wrap_mprotect(void *p, size_t n, int prot) {
+  if (hit(S_MPROTECT)) {
+    errno = ENOMEM;
+    return -1;
+  }
+  return __real_mprotect(p, n, prot);
+}
+
+ssize_t __wrap_write(int fd, const void *p, size_t n) {
+  if (fd > 2 && hit(S_WRITE)) {
+    size_t part = n / 2;
+    if (part)
+      return __real_write(fd, p, part);
+    errno = ENOSPC;
+    return -1;
+  }
+  return __real_write(fd, p, n);
+}
+
+size_t __wrap_fread(void *p, size_t sz, size_t n, FILE *f) {
+  if (hit(S_FREAD)) {
+    errno = EIO;
+    return 0;
+  }
+  return __real_fread(p, sz, n, f);
+}
+
+int __wrap_fflush(FILE *f) {
+  if (f != stderr && f != stdout && f != NULL && hit(S_FFLUSH)) {
+    errno = ENOSPC;
+    return EOF;
+  }
+  return __real_fflush(f);
+}
+
+ssize_t __wrap_pread(int fd, void *p, size_t n, off_t off) {
+  if (hit(S_PREAD)) {
+    errno = EIO;
+    return -1;
+  }
+  return __real_pread(fd, p, n, off);
+}
+
+off_t __wrap_lseek(int fd, off_t off, int wh) {
+  if (hit(S_LSEEK)) {
+    errno = ESPIPE;
+    return (off_t)-1;
+  }
+  return __real_lseek(fd, off, wh);
+}
+
+int __wrap_rename(const char *a, const char *b) {
+  if (hit(S_RENAME)) {
+    errno = EACCES;
+    return -1;
+  }
+  return __real_rename(a, b);
+}
+
+int __wrap_ftruncate(int fd, off_t n) {
+  if (hit(S_FTRUNCATE)) {
+    errno = EIO;
+    return -1;
+  }
+  return __real_ftruncate(fd, n);
+}
+
 /* ---- driver interface ---- */
 void wrap_cmd(const char *sub, const char *a, const char *b) {
   if (!strcmp(sub, "reset")) {
     memset(count, 0, sizeof count);
     memset(fail_at, 0, sizeof fail_at);
+    memset(fail_from, 0, sizeof fail_from);
+    read_max = 0;
+    read_errno = EIO;
     memset(injected, 0, sizeof injected);
     moves = growths = guarded_maps = 0;
     fstat_shrink = 0;
@@ -200,6 +329,14 @@ void wrap_cmd(const char *sub, const char *a, const char *b) {
     for (int s = 0; s < S_N; s++)
       if (!strcmp(a, SYM[s]))
         fail_at[s] = count[s] + atol(b); /* k-th call from now */
+  } else if (!strcmp(sub, "failfrom")) {
+    for (int s = 0; s < S_N; s++)
+      if (!strcmp(a, SYM[s]))
+        fail_from[s] = count[s] + atol(b); /* k-th call from now and all later ones */
+  } else if (!strcmp(sub, "readmax")) {
+    read_max = atol(a);
+  } else if (!strcmp(sub, "readerrno")) {
+    read_errno = atoi(a);
   } else if (!strcmp(sub, "forcemove")) {
     force_move = atoi(a);
   } else if (!strcmp(sub, "guardfiles")) {
@@ -210,7 +347,7 @@ void wrap_cmd(const char *sub, const char *a, const char *b) {
 }
 
 void wrap_report(void (*pr)(const char *)) {
-  char tmp[512];
+  char tmp[1024];
   int k = snprintf(tmp, sizeof tmp, "P");
   for (int s = 0; s < S_N; s++)
     k += snprintf(tmp + k, sizeof tmp - (size_t)k, " %s=%ld/%ld", SYM[s],
